@@ -99,7 +99,7 @@ class C13(BaseCheck):
   REQUIRED_CLASSES = ('headers', 'ctx:named-like-the-deadline', 'ctx:ascii', 'ctx:utf8', 'ctx:empty', 'ctx:long', 'ctx:none',
                       'deadline', 'client-id', 'reply:OK', 'reply:ERROR', 'reply:NACK', 'reply:Rerr',
                       'reply:BAD_Rerr', 'tdiscarded', 'wire', 'wire:requests-while-opening', 'wire:simultaneous-discards', 'wire:stalled-across-ping',
-                      'wire:short-sends', 'wire:after-unserialisable-call', 'deadline:already-past', 'sibling-service-marshalled-first', 'wire:every-write-stalls')
+                      'wire:short-sends', 'wire:after-unserialisable-call', 'deadline:already-past', 'sibling-service-marshalled-first', 'wire:every-write-stalls', 'wire:transient-write-error-mid-frame')
   ASSUMPTIONS = ('context keys/values are text; encoded length of each <= 32767 bytes (int16 length field)',
                  'deadline context = (whole-second wall-clock timestamp in ns, absolute deadline in ns), '
                  'deadline compared with 1us tolerance for the float->ns conversion')
@@ -549,13 +549,31 @@ class C13(BaseCheck):
       if alive and not srv.bad_frames and hv['args'][0] not in [q['call'][1][0] for q in srv.requests[n_req1:] if q.get('call') and q['call'][1]]:
         out.violate('wire:call', 'after writes that stalled past their requests\' deadlines the peer did not decode the next '
                     'request on a connection that is still up', {'stalled': 'every-write'})
+    transient = False
+    live_ = [c for c in srv.sim.conns if not c.client_closed and not c.server_closed]
+    if live_ and not srv.bad_frames and idx % 3 == 2:
+      # a write that fails with a passing condition (ENOBUFS, EAGAIN, EINTR) after part of a frame was accepted:
+      # whatever the client does next (it may give the connection up), what the peer receives on a connection
+      # stays a sequence of whole frames, at most cut off at its very end
+      import errno as errno_
+      from vlib import simnet as simnet_
+      transient = True
+      c_ = live_[-1]
+      f_ = simnet_.Fault('transient', rng.choice([errno_.ENOBUFS, errno_.EAGAIN, errno_.EINTR]))
+      f_.after = rng.choice([0, 1, 3, 10, 57])
+      w.net.fault_plan[(srv.ep, c_.ordinal, 'send', c_.ops['send'])] = f_
+      for k in range(3):
+        w.call('echo', ('t%d-%s' % (len(w.calls), gen_text(rng, False)),), timeout=2.0)
+      env.advance(3.0)
+      w.net.fault_plan.clear()
     for bf in srv.bad_frames:
       out.violate('wire:undecodable', 'the peer\'s independent decoder rejected a frame the client wrote: %r' % (bf,),
-                  {'stalled': stalled or every_write_stalls})
+                  {'stalled': stalled or every_write_stalls, 'after_transient_write_error': transient})
     w.close()
     env.advance(0.1)
     out.classes = ['wire', 'wire:discards'] + (['wire:stalled-across-ping'] if stalled else [])
     out.classes = out.classes + (['wire:every-write-stalls'] if every_write_stalls else [])
+    out.classes = out.classes + (['wire:transient-write-error-mid-frame'] if transient else [])
     out.classes = out.classes + (['wire:simultaneous-discards'] if len(want) > 1 else [])
     out.classes = out.classes + (['wire:short-sends'] if short else [])
     out.classes = out.classes + (['wire:after-unserialisable-call'] if bad_first else [])
